@@ -263,8 +263,8 @@ for pid, txt, part in [
     ('C16', 'Kernel-checked: C16_merge_terminates — the whole merge never exhausts the fuel of its only unbounded loop, for every destination that is a group with pairwise distinct UUIDs below it and every source (the group passes preserve that invariant: updates in place, moves, creations under UUIDs find_node_location did not find), the result is again such a tree and holds no node from nowhere; mergeDeletions_terminates — on a destination tree that is a group with pairwise distinct UUIDs, for every source, the work queue of merge_deletions '
             '(the only unbounded loop of merge; a group is re-queued while a child group is still queued) never exhausts the fuel (queue length + 1)^2 + 1: some queue element is always '
             'resolvable (a re-queued tombstone has a strictly deeper tombstoned node in the queue), rotations only permute the queue, removals keep UUIDs distinct. merge_group is structurally '
-            'recursive over the source tree and the pass loop is bounded by the number of groups. C16_merge_never_panics — merge reaches none of its unwrap() sites (kind mismatch in merge_group, a history item without modification time) when the replicas agree on which UUIDs are entries and which are groups and every entry version is timed: every intermediate tree is again such a tree and find_node_location is sound on it. C16_merge_succeeds_unless_time_conflict — under the same premises merge returns Ok or one of the three errors that report conflicting time stamps (entry / group modification time not updated, duplicate history entries), never FindGroupError, FindEntryError or GenericError: every look-up of the group passes and of the deletion phase succeeds (paths of groups survive the updates of the passes: findGroup_updatePath; a moved node is found where it was put: relocate_ok; merge_deletions returns Ok on every sound tree: C16_deletion_phase_succeeds). Soundness clauses (unique UUIDs, nothing lost) are evaluated on the real result of every enumerated pair under a watchdog.',
-     ['that the three time-stamp errors do not occur on replicas of a common ancestor with distinct time stamps (so that merge returns Ok outright) is validated by enumeration, not proved; proved: Ok or a time-stamp error under kind agreement (C16_merge_succeeds_unless_time_conflict), no panic (C16_merge_never_panics), and for every source: termination of the whole merge (C16_merge_terminates), success of the deletion phase (C16_deletion_phase_succeeds), the result keeps pairwise distinct UUIDs (C16_merge_keeps_uuids_distinct) and holds no node from nowhere (C16_no_node_from_nowhere)']),
+            'recursive over the source tree and the pass loop is bounded by the number of groups. C16_merge_never_panics — merge reaches none of its unwrap() sites (kind mismatch in merge_group, a history item without modification time) when the replicas agree on which UUIDs are entries and which are groups and every entry version is timed: every intermediate tree is again such a tree and find_node_location is sound on it. C16_merge_succeeds_unless_time_conflict — under the same premises merge returns Ok or one of the two errors that report conflicting time stamps (group modification time not updated, duplicate history entries), never FindGroupError, FindEntryError, GenericError or EntryModificationTimeNotUpdated: every look-up of the group passes and of the deletion phase succeeds (paths of groups survive the updates of the passes: findGroup_updatePath; a moved node is found where it was put: relocate_ok; merge_deletions returns Ok on every sound tree: C16_deletion_phase_succeeds). Soundness clauses (unique UUIDs, nothing lost) are evaluated on the real result of every enumerated pair under a watchdog.',
+     ['that the two time-stamp errors do not occur on replicas of a common ancestor with distinct time stamps (so that merge returns Ok outright) is validated by enumeration, not proved; proved: Ok or a time-stamp error under kind agreement (C16_merge_succeeds_unless_time_conflict), no panic (C16_merge_never_panics), and for every source: termination of the whole merge (C16_merge_terminates), success of the deletion phase (C16_deletion_phase_succeeds), the result keeps pairwise distinct UUIDs (C16_merge_keeps_uuids_distinct) and holds no node from nowhere (C16_no_node_from_nowhere)']),
 ]:
     PROPS[pid] = {'ops': ['merge'], 'judge': make_merge_judge(pid), 'rule': MERGE_RULE, 'assumptions': MERGE_ASSUME,
                   'level_text': txt, 'partial': part, 'timeout': 3000, 'exhaustive': {'quick': False, 'thorough': False}}
